@@ -20,12 +20,16 @@ KEY, SECRET = "the-key", "the-secret"
 PLAIN = re.compile(r"^-?\d+(\.\d+)?$")
 
 
+TB_PERIOD = 0.6       # seconds per token of the limiter that run_binance / run_bitstamp give their client (with_tb)
+
+
 class Loopback:
     def __init__(self):
         self.requests = []
         self.runner = None
         self.port = None
         self.drop_next = 0        # number of coming requests to read and then drop without answering
+        self.reject_signed = 0    # number of coming signed requests to reject: "timestamp outside of the recvWindow"
 
     async def __aenter__(self):
         async def handler(request):
@@ -37,6 +41,10 @@ class Loopback:
                 self.drop_next -= 1
                 request.transport.close()        # the server went away after reading the request
                 return web.Response()
+            if self.reject_signed > 0 and "signature=" in request.raw_path:
+                self.reject_signed -= 1
+                return web.json_response({"code": -1021, "msg": "Timestamp for this request is outside of the recvWindow."},
+                                         status=400)
             if request.path.endswith("/trading-pairs-info/"):
                 return web.json_response([{"name": "BTC/USD", "url_symbol": "btcusd", "base_decimals": 8,
                                            "counter_decimals": 2, "minimum_order": "10.0 USD", "trading": "Enabled"},
@@ -370,13 +378,13 @@ def _client_environment(variant):
         lg.removeHandler(sink)
 
 
-async def run_binance(rnd, with_tb=False):
+async def run_binance(rnd, with_tb=False, reject=False):
     from basana.external.binance import client as bclient
     from basana.core.token_bucket import TokenBucketLimiter
     calls = binance_calls(rnd)
     results = []
     async with Loopback() as lb:
-        tb = TokenBucketLimiter(1, 1.3, 1) if with_tb else None
+        tb = TokenBucketLimiter(1, TB_PERIOD, 1) if with_tb else None
         variant = rnd.randrange(8)
         ov = overrides(lb)
         if variant & 1:
@@ -387,8 +395,16 @@ async def run_binance(rnd, with_tb=False):
         if variant & 1:
             ov.clear()
             ov.update(late)
+        if with_tb:
+            # through a limiter: two ordinary calls, the three listen-key keep-alives (the client's only PUT requests),
+            # and two signed requests that the server rejects for their timestamp
+            keep = [c for c in calls if c["key"][1] == "keep_alive_listen_key"]
+            signed = [c for c in calls if c["key"][1] == "get_open_orders"][:2]
+            calls = calls[:2] + keep + signed
         with _client_environment(variant):
-            for c in (calls[:3] if with_tb else calls):
+            for i, c in enumerate(calls):
+                if with_tb and reject and i >= len(calls) - 2:
+                    lb.reject_signed = 1
                 n0 = len(lb.requests)
                 err = None
                 try:
@@ -405,7 +421,7 @@ async def run_bitstamp(rnd, with_tb=False):
     calls = bitstamp_calls(rnd)
     results = []
     async with Loopback() as lb:
-        tb = TokenBucketLimiter(1, 1.3, 1) if with_tb else None
+        tb = TokenBucketLimiter(1, TB_PERIOD, 1) if with_tb else None
         variant = rnd.randrange(8)
         ov = overrides(lb)
         if variant & 1:
